@@ -370,7 +370,7 @@ def main(argv):
     c.grep_gate()
 
     # ---- cases
-    n_cases = 500 if c.tier == "quick" else 8000
+    n_cases = 400 if c.tier == "quick" else 8000
     gen = Gen(c.rng)
     cases = []
     if c.replay:
